@@ -13,9 +13,22 @@ SPEC = {
                     "uuid.New() never collides"],
 }
 META = {
-  "text": "C05 theorems over Model/WQ.v (all label sequences, all W, L, adjust values): see notes/C05.md.",
-  "design_ref": "DESIGN.md section 7, C05",
-  "note": "see notes/C05.md",
-  "technique": "Coq invariant proof over an interleaving model + verified container/heap mirror + scripted correspondence",
+  "text": "Coq theorems (Props/C05.v, 5, closed under the global context) over the executable interleaving model Model/WQ.v of the work queue, for ALL worker counts, queue lengths, label sequences (workload + schedule) and adjust-function values: at every dispatch decision the popped item is a waiting item carrying its effective priority (adjust value if it has an adjust function) and no waiting item precedes it in (effective priority, arrival number) order (C05_min); arrival numbers are the order of arrival at the dispatcher, so among equals none arrived earlier (C05_arrival_order, C05_fifo_among_equals); every waiting adjust function is consulted exactly once per decision (C05_all_consulted); heap order and position=index hold in every reachable state (C05_heap_ok), resting on the verified mirror of container/heap (Lib/GoHeapProofs.v). The pinned defects F3, F4, F5 are refuted in Findings/WQ.v with concrete schedules (vm_compute). The model is tied to /repo on every run by scripted schedules (one stimulus at a time, quiescence detection) replayed in Coq with all internal interleavings explored.",
+  "design_ref": "DESIGN.md section 7, C05 (and 'Work queue model', Appendix A, Appendix C)",
+  "note": "Trusted: Coq kernel + vm_compute; the hand-written model (validated by this run's scripts only); Go channels/select/sync.Map/atomics modelled by contract; the quiescence detector. The monitor is model-relative (start order and consultation counts must be among the model's predictions). Decisions taken in non-quiescent races (an arrival overtaking a pending token) are covered by the theorems but not exercised deterministically by the harness.",
+  "technique": "Coq invariant proof over an interleaving model + verified container/heap mirror + scripted differential correspondence (vm_compute) against the Go code",
 }
-KNOWN = []
+KNOWN = [
+ {"property": "C05", "id": "F3", "status": "fixed", "commit": "f78c57d",
+  "what": "full-queue branch appended the new item with the bare workHeap.Push (no sift-up): W=1, L=2, priorities 5,5,9,8,1,7,0 started 9 before 1",
+  "line": "fixed: property=C05 f78c57d full-queue branch used bare Push, later pops handed out a lower-priority item first",
+  "signature": "^corpus-F3:1$"},
+ {"property": "C05", "id": "F4", "status": "fixed", "commit": "cbe6930",
+  "what": "Less compared the priority only: eight priority-1 items on one worker started 0 1 2 7 6 5 4 3",
+  "line": "fixed: property=C05 cbe6930 equal priorities were not dispatched first come first served",
+  "signature": "^corpus-F4:1$"},
+ {"property": "C05", "id": "F5", "status": "fixed", "commit": "c520590",
+  "what": "AdjustPriorities called heap.Fix while ranging over the slice it re-orders: an item was consulted twice, another not at all and dispatched with its stale priority",
+  "line": "fixed: property=C05 c520590 AdjustPriorities skipped adjust functions (heap.Fix while ranging)",
+  "signature": "^corpus-F5:1$"},
+]
